@@ -612,13 +612,16 @@ def chunk(E, t, chunks, dim=0, node=None):
 
 
 def clone(E, t, memory_format=None, node=None):
-    return STensor(t.dtype, list(t.shape), t.snap(), device=t.device, fresh=True)
+    r = STensor(t.dtype, list(t.shape), t.snap(), device=t.device, fresh=True)
+    if "ghost_codes" in t.attrs:
+        r.attrs["ghost_codes"] = t.attrs["ghost_codes"]
+    return r
 
 
 def detach(E, t, node=None):
     r = view_of(t, t.dtype, list(t.shape), lambda idx: list(idx), t.strides, identity=True)
     r.requires_grad = False
-    r.attrs.update({k: v for k, v in t.attrs.items() if k in ("input_fn",)})
+    r.attrs.update({k: v for k, v in t.attrs.items() if k in ("input_fn", "ghost_codes")})
     return r
 
 
@@ -631,7 +634,10 @@ def _to_copy(E, t, dtype=None, device=None, **kw):
     dev = device if device is not None else t.device
     if isinstance(dev, str):
         dev = Device(dev)
-    return STensor(r.dtype, list(r.shape), r.snap(), device=dev, fresh=True)
+    out = STensor(r.dtype, list(r.shape), r.snap(), device=dev, fresh=True)
+    if "ghost_codes" in t.attrs and r.dtype == t.dtype:
+        out.attrs["ghost_codes"] = t.attrs["ghost_codes"]
+    return out
 
 
 def copy_(E, dest, src, non_blocking=False, node=None):
